@@ -88,7 +88,14 @@ class SimultaneousScheduler(Scheduler):
             event = self.handle_delayed_event(model.events.pop(), dt=model.dt)
 
             if event:
-                model.agents[event.receiver_id].receive_event(event)
+                # look the receiver up by id: after deletions the id is no longer the list position
+                receiver = model.agent(event.receiver_id)
+
+                if receiver is None:
+                    # the addressed agent no longer exists: drop the event
+                    continue
+
+                receiver.receive_event(event)
 
                 if model.data_collector:
                     model.data_collector.record_event(time, event)
